@@ -64,6 +64,10 @@ CONTENT_VARIANTS = {
         ('le-mac', {'line_endings': 'mac'}, REJECT),
         ('le-int', {'line_endings': 5}, REJECT),
         ('le-upper', {'line_endings': 'DOS'}, REJECT),
+        ('le-substr', {'line_endings': 'nix'}, REJECT),
+        ('le-empty', {'line_endings': ''}, REJECT),
+        ('mimetype-substr', {'mimetype': 'text'}, REJECT),
+        ('mimetype-empty', {'mimetype': ''}, REJECT),
         ('mimetype-html', {'mimetype': 'text/html'}, REJECT),
         ('mimetype-int', {'mimetype': 5}, REJECT),
         ('unencodable', {'text': 'snow ☃', 'encoding': 'ascii'}, REJECT),
@@ -83,6 +87,8 @@ CONTENT_VARIANTS = {
         ('meta-str', {'metadata': '{}'}, REJECT),
         ('meta-empty', {'metadata': {}}, REJECT),
         ('format-yaml', {'meta_format': 'yaml'}, REJECT),
+        ('format-substr', {'meta_format': 'js'}, REJECT),
+        ('format-empty', {'meta_format': ''}, REJECT),
         ('format-none', {'meta_format': None}, REJECT),
         ('codec-unknown', {'encoding': 'nope-8'}, REJECT),
         ('meta-nan', {'metadata': {'x': {'$float': 'nan'}}}, MAY),
@@ -96,6 +102,8 @@ CONTENT_VARIANTS = {
         ('diff-empty', {'content_hex': ''}, REJECT),
         ('diff-bytearray', {'content': ['a']}, REJECT),
         ('type-x', {'diff_type': 'x'}, REJECT),
+        ('type-substr', {'diff_type': 'tex'}, REJECT),
+        ('type-empty', {'diff_type': ''}, REJECT),
         ('type-int', {'diff_type': 5}, REJECT),
         ('le-mac', {'line_endings': 'mac'}, REJECT),
         ('codec-unknown', {'encoding': 'nope-8', 'line_endings': None},
@@ -125,6 +133,17 @@ def valid_op(rng, name, scope_enc):
 
         return op
 
+    if scope_enc is None and name != 'write_diff':
+        # no encoding in effect: some calls with plain ASCII text, some with
+        # text that has no byte representation then
+        op = gen.gen_content_op(rng, name[len('write_'):], 'ascii'
+                                if rng.chance(0.5) else 'utf-8')
+
+        if 'encoding' in op and op['encoding'] is None:
+            del op['encoding']
+
+        return op
+
     if scope_enc is UNKNOWN or not isinstance(scope_enc, str):
         scope_enc = 'utf-8'
 
@@ -133,9 +152,13 @@ def valid_op(rng, name, scope_enc):
 
 def generate(rng, tier, cls):
     main = rng.choice(gen.ENCS_COMMON if rng.chance(0.6) else gen.ENCS)
+
+    if rng.chance(0.06):
+        main = None         # a file that declares no encoding at all
+
     ops = []
     m = Model(main)
-    n = rng.randint(1, 40)
+    n = rng.randint(1, 120 if tier == 'thorough' else 40)
     p_illegal = rng.choice([0.0, 0.1, 0.2, 0.4])
     p_bad = rng.choice([0.0, 0.1, 0.25, 0.5])
 
@@ -342,6 +365,15 @@ class Model(object):
 
             return cls
 
+        if enc_eff is None:
+            # no encoding anywhere: text has a byte representation only if
+            # it is plain ASCII (accepting that is optional), none otherwise
+            try:
+                payload.encode('ascii')
+                return MAY
+            except UnicodeError:
+                return REJECT
+
         if not isinstance(enc_eff, str) or not R.codec_known(enc_eff):
             return REJECT
 
@@ -404,10 +436,15 @@ def execute(scn, L):
     spec = specs[0]
     main = spec.get('main_encoding', 'utf-8')
 
-    if not isinstance(main, str) or not main or not R.codec_known(main) or \
-       not R.VAL_RE.match(main.encode('utf-8', 'replace')):
+    if main is not None and (
+            not isinstance(main, str) or not main or
+            not R.codec_known(main) or
+            not R.VAL_RE.match(main.encode('utf-8', 'replace'))):
         out.discarded = 'outside-domain'
         return out
+
+    if main is None:
+        out.probe('writer_without_any_encoding')
 
     ops = [op for op in spec.get('ops', ())
            if isinstance(op, dict) and op.get('op') in CALLS]
